@@ -325,7 +325,11 @@ pub fn run(seed: u64, count: u64, out: &mut dyn Write, stats: &mut Stats) {
             Some(v) => v,
             None => continue,
         };
-        let nops = 8 + r.below(40);
+        // one history in four hundred is a BUSY MARKET: several hundred consecutive blocks one to three seconds apart (more reserve
+        // snapshots inside a 15-minute window than any bound a TWAP walk might silently impose); one in fifty is OLD: gaps of days
+        let busy = h % 400 == 7 && h < 2000;
+        let old_market = h % 50 == 11;
+        let nops = if busy { 1000 } else { 8 + r.below(40) };
         for k in 0..nops {
             if k == 0 && r.chance(9, 10) {
                 let ok = vh.exec("owner", ExecuteMsg::SetOpen { open: true }).is_some();
@@ -334,6 +338,13 @@ pub fn run(seed: u64, count: u64, out: &mut dyn Write, stats: &mut Stats) {
                 continue;
             }
             // time / block schedule: same block bursts, single steps, gaps
+            if busy && k > 0 {
+                vh.env.block.height += 1;
+                vh.env.block.time = Timestamp::from_nanos((vh.env.block.time.seconds() + 1) * 1_000_000_000 + crate::subsec(vh.env.block.height));
+            } else if old_market && k % 4 == 1 {
+                vh.env.block.height += 1;
+                vh.env.block.time = Timestamp::from_nanos((vh.env.block.time.seconds() + 86_400 * (1 + (k % 5))) * 1_000_000_000 + crate::subsec(vh.env.block.height));
+            } else {
             match r.below(10) {
                 0..=3 => {}
                 4..=6 => {
@@ -352,6 +363,7 @@ pub fn run(seed: u64, count: u64, out: &mut dyn Write, stats: &mut Stats) {
                     // time stands still across a block boundary
                     vh.env.block.height += 1;
                 }
+            }
             }
             // the generator computes with observed values; if a broken contract hands it something it cannot
             // digest (overflow in a derived amount) the history is abandoned, not the run
@@ -488,7 +500,7 @@ pub fn step(vh: &mut VH, r: &mut Rng, stats: &mut Stats) -> String {
         )
     } else if choice < 70 {
         // ---- TWAP queries
-        let interval = *r.pick(&[0u64, 1, 60, 300, 900, 3600, 86400, 7, 100000]);
+        let interval = *r.pick(&[0u64, 1, 60, 300, 900, 3600, 86400, 7, 100000, 604800, 691200, 1209600]);
         let tw = vh.query_u128(QueryMsg::TwapPrice { interval });
         let spot = vh.query_u128(QueryMsg::SpotPrice {});
         stats.count("op", "q_twap");
